@@ -105,6 +105,44 @@ func main() {
 		items = append(items, it)
 		rep.Hit("shape:delimiter-like-lines")
 	}
+	// ---- Unix text attached as it is: the content of a leaf ends in a bare line feed right in front of the CRLF of the next
+	// delimiter line (inline and out of line, first and middle part, by both routes) ----
+	for k := 0; k < 4; k++ {
+		script := "#!/bin/sh\necho one\necho two\n"
+		if k%2 == 1 {
+			script += strings.Repeat("# a comment line of an attached script that is kept out of line\n", 20)
+		}
+		tok := fmt.Sprintf("c02unix%d", k)
+		first := &mimegen.Node{CType: "text/plain", Charset: "utf-8", CTE: "8bit", Content: []byte(script)}
+		if k >= 2 {
+			first.Filename, first.Disposition = "run.sh", "attachment"
+		}
+		tree := &mimegen.Node{Multi: true, Subtype: "mixed", Children: []*mimegen.Node{
+			{CType: "text/plain", Charset: "utf-8", CTE: "7bit", Content: []byte("see the attached script\r\n")},
+			first,
+			{CType: "text/plain", Charset: "utf-8", CTE: "7bit", Content: []byte("the last part\r\n")}}}
+		if k == 3 {
+			tree.Children = tree.Children[1:]
+		}
+		it := &item{token: tok, tree: tree, user: users[k%2]}
+		it.top = []string{"From: a@example.org", "To: " + it.user, "Subject: " + tok}
+		it.msg = tree.Serialize(it.top)
+		if k%2 == 0 {
+			it.via = "append"
+			if r := clients[it.user].Append("INBOX", "", it.msg); !r.OK() {
+				rep.Violate("impl-violation", "store", fmt.Sprintf("well-formed message %s refused by APPEND: %s", it.token, r.Tagged), []string{"msg " + hx.H(it.msg)})
+				continue
+			}
+		} else {
+			it.via = "lmtp"
+			if _, data := w.Deliver("sender@example.org", []string{it.user}, it.msg); len(data) != 1 || !strings.HasPrefix(data[0], "250") {
+				rep.Violate("impl-violation", "store", fmt.Sprintf("well-formed message %s refused by LMTP: %v", it.token, data), []string{"msg " + hx.H(it.msg)})
+				continue
+			}
+		}
+		items = append(items, it)
+		rep.Hit("shape:leaf-ends-in-bare-lf")
+	}
 	// ---- fetch every message in two sessions (after everything has been stored: the history is all the others) ----
 	emlDir := dir + "/eml"
 	os.MkdirAll(emlDir, 0755)
